@@ -1,9 +1,7 @@
-// TRUSTED PRELUDE (C03 on top of prelude/euclid.rs D={D}): a rigid motion acting on points, and the exact std semantics of
-// `Vec::dedup_by(|a, b| dist(a, b) <= tol)` on a list whose consecutive elements are already more than tol apart.
+// TRUSTED PRELUDE (C03 on top of prelude/euclid.rs D={D}): a rigid motion acting on points.
 // ASSUMED:  E1  |T(a) - T(b)| == |a - b|   (an isometry preserves distances)
-//           the de-duplication clauses of frags/curve{D}_types.inc (vf_dedup_by_dist) PLUS: if every element is more than
-//           tol away from its predecessor, nothing is removed (dedup_by removes an element only when the closure holds
-//           for it and the last retained element).
+// (`pts_sep` and the de-duplication semantics used by Curve{D}::from_points are those of frags/curve{D}_types.inc; from_points
+// itself is used through its core contract, frags/curve{D}_core.inc, verified by unit curve{D}_stations.)
 #[verifier::external_body] #[derive(Clone, Copy)] pub struct Iso{D} { _p: [u8; 0] }
 pub uninterp spec fn iso_p(t: Iso{D}, p: Point{D}) -> Point{D};
 pub broadcast axiom fn ax_iso_dist(t: Iso{D}, a: Point{D}, b: Point{D}) ensures #[trigger] v_norm(p_sub(iso_p(t, a), iso_p(t, b))) == v_norm(p_sub(a, b));
@@ -11,20 +9,3 @@ pub broadcast group iso{D}_axioms { ax_iso_dist }
 // `iso * p` for `&Iso * &Point` (a Mul impl on two references trips a Verus internal error: R11 rewrite to this helper)
 #[verifier::external_body]
 pub fn vf_iso_apply(t: &Iso{D}, p: &Point{D}) -> (r: Point{D}) ensures r == iso_p(*t, *p) { unimplemented!() }
-
-// consecutive points are more than tol apart
-pub open spec fn pts_sep(s: Seq<Point{D}>, tol: real) -> bool {
-    forall|i: int| 0 <= i < s.len() - 1 ==> p_dist(#[trigger] s[i + 1], s[i]) > tol
-}
-pub uninterp spec fn vf_dedup_src_c03(old: Seq<Point{D}>, tol: f64, i: int) -> int;
-#[verifier::external_body]
-pub fn vf_dedup_by_dist_c03(pts: &mut Vec<Point{D}>, tol: f64)
-    ensures
-        final(pts).len() <= old(pts).len(),
-        old(pts).len() > 0 ==> final(pts).len() > 0 && final(pts)[0] == old(pts)[0],
-        pts_sep(final(pts)@, rv(tol)),
-        forall|i: int| 0 <= i < final(pts).len() ==> 0 <= #[trigger] vf_dedup_src_c03(old(pts)@, tol, i) < old(pts).len()
-            && final(pts)[i] == old(pts)[vf_dedup_src_c03(old(pts)@, tol, i)],
-        // nothing to remove: the list is returned unchanged
-        pts_sep(old(pts)@, rv(tol)) ==> final(pts)@ == old(pts)@,
-{ unimplemented!() }
